@@ -101,6 +101,27 @@ theorem inflight_fail_must_raise {s : St} {t : Tid} {tk : Async.Task} {m : Msg} 
   simp only [step?, actStep, ht, hp, ha, hfail]
   rw [if_neg (fun e : Msg.fail = m => hm e.symm)]
 
+/-- `inflight_fail` (3), the transparent retry (`retry_resends_whole_unit`, strengthening after seeded round 2):
+in every reachable state of every schedule of `send` / `run_sequence` callers of driver `d`, a
+CommunicationError that hits a caller sending with exceptions off — at any step of its unit, also after the
+EnableDeviceType prefix has completed and while the command itself is in flight — leaves the caller inside the
+call with the clean-up back to the loop head (no frame), then the WHOLE unit again (`C15.unitFrames`:
+EnableDeviceType first when the command needs a device type, then the command), then the release of the lock.
+Prefix and command are never retried separately. -/
+theorem retry_resends_whole_unit (d : Driver) {s0 s s' : St} {ls : List Label} (h0 : s0.initial)
+    (hd : C15.DriverSchedule d ls) (h : run? s0 ls = some s) {t : Tid} {tk : Async.Task}
+    (ht : s.tasks[t]? = some tk) (hretry : tk.retry.isSome = true)
+    (hstep : step? s (.raise t .comm) = some s') :
+    ∃ (c : Cmd) (st : Step) (rest cleanup : List Step) (tk' : Async.Task),
+      tk.prog = st :: rest ∧ st.act.canComm = true ∧
+      s'.tasks[t]? = some tk' ∧ tk'.exc = tk.exc ∧ tk'.retry = tk.retry ∧ s'.lock = s.lock ∧ s'.log = s.log ∧
+      tk'.prog = cleanup ++ withEdt d c [Act.rel] ++ [{ act := .rel }] ∧
+      (∀ x ∈ cleanup, x.act.isCleanup = true) ∧ C15.writesOf cleanup = [] ∧
+      C15.writesOf (withEdt d c [Act.rel]) = C15.unitFrames d c ∧
+      (c.frame.dt ≠ 0 → (C15.unitFrames d c).head? = some (edtFrame c.frame.dt)) ∧
+      edtOK none (withEdt d c [Act.rel]) = true :=
+  C15.retry_resends_whole_unit d h0 hd h ht hretry hstep
+
 /-- `serial_timeout`: a confirmation time-out (or any exception or cancellation) in a serial send
 leaves the call with everything released; the wait for the backward frame can always end
 (`poll` is enabled with or without an answer: "no answer" after `timeout_rx`). -/
